@@ -8,6 +8,8 @@ CONFIGS = {
     "mix02": dict(scf_converger=[0, 0.2]), "mix06": dict(scf_converger=[0, 0.6]), "adapt": dict(scf_converger=[1]), "pulay": dict(scf_converger=[2]),
     "adapt_sp2": dict(scf_converger=[1], sp2=[True, 1e-7]), "pulay_sp2": dict(scf_converger=[2], sp2=[True, 1e-7]), "uhf_adapt": dict(scf_converger=[1], UHF=True),
     "uhf_mix": dict(scf_converger=[0, 0.3], UHF=True), "adapt_tight": dict(scf_converger=[1], scf_eps=1e-10), "pulay_loose": dict(scf_converger=[2], scf_eps=1e-6),
+    # purification threshold requested below the supported floor (the code clamps it to the floor)
+    "adapt_sp2_tiny": dict(scf_converger=[1], sp2=[True, 1e-10]), "mix_sp2_tiny": dict(scf_converger=[0, 0.3], sp2=[True, 1e-9]),
 }
 EPS_DEFAULT = 1e-8
 
@@ -20,14 +22,14 @@ def run_walk(case):
 
     mdlib.use_stub(False)
     common.quiet_stdio()
-    name = case["mol"]
+    names = list(case.get("mates", [])) + [case["mol"]]   # the molecule of interest is the last row of the batch
     prev = None
     out = []
     for step in case["walk"]:
         cfg = dict(CONFIGS[step["cfg"]])
         eps = cfg.pop("scf_eps", EPS_DEFAULT)
         p = mdlib.seqm_params(scf_eps=eps, **cfg)
-        sp, xyz, q, mult = scf_driver.build_batch([name], displace=0.0)
+        sp, xyz, q, mult = scf_driver.build_batch(names, displace=0.0)
         g = torch.Generator().manual_seed(100 + int(step["g"]))
         xyz = xyz + 0.06 * (torch.rand(xyz.shape, generator=g, dtype=torch.float64) - 0.5) * (sp > 0).unsqueeze(-1)
         mol = Molecule(Constants(), p, xyz, sp, charges=q, mult=mult)
@@ -48,14 +50,14 @@ def run_walk(case):
         try:
             es = Electronic_Structure(p)
             es(mol, P0=P0)
-            rec["flag"] = bool(es.notconverged.any())
-            rec["Etot"] = float(mol.Etot[0])
-            rec["force"] = [float(x) for x in mol.force[0].reshape(-1)]
-            rec["q"] = [float(x) for x in mol.q[0]]
-            nocc = int(mol.nocc[0].reshape(-1)[0])
-            em = mol.e_mo[0]
-            em = em[0] if em.dim() == 2 else em
-            rec["e_occ"] = [float(x) for x in em[:nocc]]
+            rec["rows"] = []
+            for m, nm in enumerate(names):
+                n = len(scf_driver.MOLS[nm][0])
+                nocc = int(mol.nocc[m].reshape(-1)[0])
+                em = mol.e_mo[m]
+                em = em[0] if em.dim() == 2 else em
+                rec["rows"].append({"name": nm, "flag": bool(es.notconverged[m]), "Etot": float(mol.Etot[m]), "force": [float(x) for x in mol.force[m, :n].reshape(-1)],
+                                    "q": [float(x) for x in mol.q[m, :n]], "e_occ": [float(x) for x in em[:nocc]]})
             prev = mol.dm.detach().clone()
         except Exception as ex:  # noqa
             rec["error"] = f"{type(ex).__name__}: {str(ex)[:200]}"
